@@ -248,6 +248,10 @@ def wrappers(obj):
             wrappers = obj._sigtools__wrappers
         except AttributeError:
             return
-        for wrapper in wrappers:
-            yield wrapper
-        obj = obj.__wrapped__
+        wrapped = obj.__wrapped__
+        if wrappers is not getattr(wrapped, '_sigtools__wrappers', None):
+            for wrapper in wrappers:
+                yield wrapper
+        # else: obj is a functools.wraps-style wrapper, which copied the
+        # attribute from what it wraps along with the rest of its __dict__
+        obj = wrapped
